@@ -18,7 +18,11 @@ let pixel_size = [| 3; 3; 4; 4; 4; 4; 1; 4; 4; 4; 4; 4 |]
 let ivs l = match l with
   | [] -> "-"
   | _ -> String.concat "," (List.map (fun (o, n) -> Printf.sprintf "%d+%d" (int_of_z o) (int_of_z n)) l)
-let bufw id size tr = Printf.sprintf "b%d=%d:%s" id (int_of_z size) (ivs (footprint (z_of_int id) (writes tr)))
+let big = ref false
+let bufw id size tr =
+  if !big then Printf.sprintf "b%d=%d:%s" id (int_of_z size) (if footprint (z_of_int id) (writes tr) = [] then "-" else "full")
+  else Printf.sprintf "b%d=%d:%s" id (int_of_z size) (ivs (footprint (z_of_int id) (writes tr)))
+let hdr ow oh = if !big then "ok" else Printf.sprintf "ok ow=%d oh=%d" ow oh
 let bufr id size = Printf.sprintf "b%d=%d:r" id (int_of_z size)
 
 let kernel_of name =
@@ -29,7 +33,12 @@ let kernel_of name =
 
 let () = iter_lines (fun line ->
   let t = kv line in
-  match words line with
+  big := false;
+  let ws = match words line with
+    | "big" :: rest -> big := true;
+        (if gs t "api" = "cmp" || gs t "api" = "dec" then "pk" else "yuv") :: rest
+    | l -> l in
+  match ws with
   | "pk" :: _ ->
       let api = gs t "api" in
       let ps = z_of_int pixel_size.(gi t "pf") in
@@ -39,7 +48,7 @@ let () = iter_lines (fun line ->
       if api = "cmp" then begin
         let w = gz t "w" and h = gz t "h" in
         let pitch = if pad < 0 then Z0 else z_of_int (gi t "w" * int_of_z ps + pad) in
-        Printf.printf "ok ow=%d oh=%d %s\n" (gi t "w") (gi t "h") (bufr 0 (packed_size w pitch h ps ssize))
+        Printf.printf "%s %s\n" (hdr (gi t "w") (gi t "h")) (bufr 0 (packed_size w pitch h ps ssize))
       end else begin
         let jw = gz t "w" and jh = gz t "h" and num = gz t "num" and den = gz t "den" in
         let mcuw = z_of_int (8 * int_of_z (samp_h (gz t "ss"))) in
@@ -49,7 +58,7 @@ let () = iter_lines (fun line ->
             let ow = dec_out_w jw num den c and oh = dec_out_h jh num den c in
             let pitch = if pad < 0 then Z0 else z_of_int (int_of_z ow * int_of_z ps + pad) in
             let tr = decompress_accesses jw jh num den c pitch ps ssize bu in
-            Printf.printf "ok ow=%d oh=%d %s\n" (int_of_z ow) (int_of_z oh) (bufw 0 (packed_size ow pitch oh ps ssize) tr)
+            Printf.printf "%s %s\n" (hdr (int_of_z ow) (int_of_z oh)) (bufw 0 (packed_size ow pitch oh ps ssize) tr)
       end
   | "yuv" :: _ ->
       let api = gs t "api" in
@@ -95,6 +104,26 @@ let () = iter_lines (fun line ->
         done
       end;
       print_endline (Buffer.contents b)
+  | "hist" :: _ ->
+      let ps = z_of_int pixel_size.(gi t "pf") in
+      let ssize = z_of_int (if gi t "bits" > 8 then 2 else 1) in
+      let bu = gi t "bu" = 1 and pad = gi t "pad" in
+      let same = gi t "same" = 1 in
+      let wA = gz t "wA" and hA = gz t "hA" and ssA = gz t "ssA" in
+      let n1 = z_of_int (max 1 (gi t "n1")) and d1 = z_of_int (max 1 (gi t "d1")) in
+      let num = gz t "num" and den = gz t "den" in
+      let stored = hist_region wA hA n1 d1 (z_of_int (8 * int_of_z (samp_h ssA)))
+                     { r_x = gz t "cx"; r_y = gz t "cy"; r_w = gz t "cw"; r_h = gz t "ch" } in
+      let fw, fh, fss = if same then wA, hA, ssA else gz t "w", gz t "h", gz t "ss" in
+      let align = crop_align num den (samp_h fss) (int_of_z fss = 3) in
+      (match dec_recheck dec_chk_left dec_chk_width dec_chk_bottom fw fh num den align stored with
+       | Rejected -> print_endline "err rej"
+       | NoReturn -> print_endline "hang"
+       | Accepted (ow, oh) ->
+           let dw = dec_out_w fw num den stored and dh = dec_out_h fh num den stored in
+           let pitch = if pad < 0 then Z0 else z_of_int (int_of_z dw * int_of_z ps + pad) in
+           let tr = packed_accesses W ow (if pad < 0 then z_of_int (int_of_z dw * int_of_z ps) else pitch) oh ps ssize bu in
+           Printf.printf "ok ow=%d oh=%d %s\n" (int_of_z dw) (int_of_z dh) (bufw 0 (packed_size dw pitch dh ps ssize) tr))
   | "rs" :: _ ->
       (* whole image through jpeg_read_scanlines(max_lines): every call stays within its rows
          (C11_read_scanlines_rows_within); the calls together deliver the scaled height *)
